@@ -50,7 +50,7 @@ META = {
     'components_real': ['TapeRecorder sampling decision, force / discard / skip handling', 'S3TapeCassette._should_sample', 'random.Random (history part)'],
     'components_stub': ['scripted RNG (table part)', 'spy cassette', 'S3 bucket'],
     'budgets': {'quick': {'seconds': 25}, 'thorough': {'seconds': 300}},
-    'required_probes': {'quick': ['table_row'], 'thorough': ['table_row', 'history_same_seed', 'history_paired', 'history_mixed_classes', 's3_calculator', 'straggler_force', 'operation_inherited_by_classes_with_other_parameters', 'parameters_applied_after_first_run', 'abort_fails_on_discard']},
+    'required_probes': {'quick': ['table_row'], 'thorough': ['table_row', 'history_same_seed', 'history_paired', 'history_mixed_classes', 's3_calculator', 'straggler_force', 'operation_inherited_by_classes_with_other_parameters', 'parameters_applied_after_first_run', 'abort_fails_on_discard', 'straggler_overlaps_next_operation']},
 }
 
 
@@ -61,37 +61,72 @@ def straggler_force(tape):
     from simkit import REPO
     from simkit.sim import Sim, SimDeadlock
     run = Run(PROP)
-    sim = Sim(tape, run, preempt_p=tape.choice([0.05, 0.2, 0.5]), target_files=[os.path.join(REPO, 'playback', 'tape_recorder.py')], max_steps=60000)
+    placed = tape.draw(260)            # 0: random pre-emption; k+1: the worker starts at once and is pre-empted at its line point k ...
+    placed2 = tape.draw(80)            # ... and gets the processor back at line point m of the second operation (0: only when main waits)
+    p_random = tape.choice([0.05, 0.2, 0.5])
+    if placed:
+        sim = Sim(tape, run, preempt_p=0.0, prim_p=0.0, placements={placed - 1: 0}, eager_start=True, record_points=True,
+                  target_files=[os.path.join(REPO, 'playback', 'tape_recorder.py')], max_steps=60000)
+        run.probe('straggler_preempted_at_a_placed_point')
+    else:
+        sim = Sim(tape, run, preempt_p=p_random, target_files=[os.path.join(REPO, 'playback', 'tape_recorder.py')], max_steps=60000)
     spy = R.SpyCassette(InMemoryTapeCassette(), run)
     recorder = TapeRecorder(spy)
     rng = R.ScriptedRandom([], default=0.9)
     recorder._random = rng
     first_params = {'sampling_rate': tape.choice([0.0, 0.3, 1.0]), 'ignore_enforced_sampling': bool(tape.draw(2))}
-    first = simple_spec('OpA', [['spawn', [[['force']] * (1 + tape.draw(2))], True]], first_params)
-    second_params = {'sampling_rate': tape.choice([0.0, 0.3]), 'ignore_enforced_sampling': bool(tape.draw(2))}
+    action = tape.choice(['force', 'force', 'discard'])
+    overlap = tape.draw(2) == 1        # the next operation starts while the worker of the first one is still at it
+    first = simple_spec('OpA', [['spawn', [[[action]] * (1 + tape.draw(2))], True]], first_params)
+    second_params = {'sampling_rate': tape.choice([0.0, 0.3, 1.0] if overlap else [0.0, 0.3]), 'ignore_enforced_sampling': bool(tape.draw(2))}
     second = simple_spec('OpB', [], second_params)
     result = {}
 
     def main():
         a = R.record_once(first, run, spy, recorder=recorder, thread_factory=R.sim_thread_factory(sim))
+        if not overlap:
+            for name, th, tobs, strag in a.svc.threads:
+                th.join()
+            result['idle_forced'] = recorder.is_recording_sample_forced
+        before = len(spy.calls)
+        if placed and placed2:
+            sim.placements[sim.line_points + placed2 - 1] = 0
+        R.record_once(second, run, spy, recorder=recorder)
         for name, th, tobs, strag in a.svc.threads:
             th.join()
-        result['idle_forced'] = recorder.is_recording_sample_forced
-        before = len(spy.calls)
-        R.record_once(second, run, spy, recorder=recorder)
-        result['second'] = [c[0] for c in spy.calls[before:] if c[0] != 'create']
+        # (a late discard of the first recording may reach the cassette only now: count the second recording's own calls)
+        second_ids = [c[1] for c in spy.calls[before:] if c[0] == 'create']
+        result['second'] = [c[0] for c in spy.calls[before:] if c[0] != 'create' and c[1] in second_ids]
+        first_ids = [c[1] for c in spy.calls[:before] if c[0] == 'create']
+        result['first'] = [c[0] for c in spy.calls if c[0] != 'create' and c[1] in first_ids]
+        result['idle_forced_at_end'] = recorder.is_recording_sample_forced
     try:
         sim.run_main(main)
     except SimDeadlock as ex:
         run.violate('decision_in_history', 'deadlock', str(ex))
         return run
     run.probe('straggler_force')
+    if sim.point_owner is not None:
+        run.config['point_owner'] = list(sim.point_owner)
     run.nontrivial = sim.switches > 2
     run.say('first %s then %s: second operation %s, forced flag while idle %s' % (first_params, second_params, result.get('second'), result.get('idle_forced')))
     run.ev('straggler', first_params, second_params, result.get('second'), result.get('idle_forced'))
     run.check(not result.get('idle_forced'), 'force_not_sticky', 'sticky-force-after-straggler', 'forced sampling is set on an idle recorder after a worker thread asked for it while its operation ended')
+    run.check(not result.get('idle_forced_at_end'), 'force_not_sticky', 'sticky-force-after-straggler', 'forced sampling is set on an idle recorder after the late worker thread finished')
     exp = expected_keep(False, second_params['sampling_rate'], False, second_params['ignore_enforced_sampling'], False, 0.9)
     got = '+'.join(result.get('second', [])) or 'none'
+    if overlap:
+        # the late request may land in the second operation's recording (it is the recorder's current one): then it decides
+        # like a request of that operation; in every case the second recording is finalised exactly once
+        run.probe('straggler_overlaps_next_operation')
+        run.check(len(result.get('first', [])) == 1, 'decision_in_history', 'first-recording-not-finalised-once',
+                  lambda: 'the first recording was finalised %s' % (result.get('first'),))
+        allowed = set([exp, 'abort' if action == 'discard' else ('save' if not second_params['ignore_enforced_sampling'] else exp)])
+        if got not in allowed:
+            run.violate('decision_in_history', 'history-row:late-%s-of-previous-operation' % action,
+                        'a worker of the previous operation was still inside its %s request when the next operation (rate %s) ran: that one was finalised as %r, allowed %s' % (
+                            action, second_params['sampling_rate'], got, sorted(allowed)))
+        return run
     if got != exp:
         run.violate('decision_in_history', 'history-row:leak-from-straggler', 'after a straggler force request the next operation (rate %s, no force) was %s, policy says %s' % (second_params['sampling_rate'], got, exp))
     return run
@@ -423,3 +458,14 @@ def run_index(i, seed, tier, emit):
         pass
     t = Tape(seed, prefix=[[0, 3, 5, 2, 4, 7, 6, 6, 7][i % 9]])
     emit(safe_run_tape(mod, t), t)
+    if i % 9 == 6:
+        # the same straggler scenario with its single pre-emption placed at every line point in turn
+        t0 = Tape(seed, prefix=[6, 259, 0])
+        r0 = safe_run_tape(mod, t0)
+        emit(r0, t0)
+        owner = r0.config.get('point_owner') or []
+        ks = [k for k in range(len(owner)) if owner[k] != 0] or list(range(0, 250, 2))
+        for k in ks[::1 if tier != 'quick' else 2]:
+            for m in range(0, 80, 2 if tier != 'quick' else 5):
+                t = Tape(seed, prefix=[6, k + 1, m])
+                emit(safe_run_tape(mod, t), t)
